@@ -654,6 +654,7 @@ static void mode_endian(Ctx& c) {
 }
 
 int main(int argc, char** argv) {
+  install_death_hooks();
   Ctx c;
   for (int i = 1; i < argc; i++) {
     std::string a = argv[i];
